@@ -192,18 +192,23 @@ theorem step_trans {s s' : State} {e : Event} (hs : step an s e = some s') : Tra
     simp only [step, Option.some.injEq] at hs
     subst hs
     exact .ext [] (Ext.of_eq rfl rfl rfl rfl rfl) (by simp) (by simp)
-  | config live order =>
+  | configLock =>
     simp only [step] at hs
     split at hs
     · simp at hs
-    · split at hs
-      · simp only [Option.some.injEq] at hs
-        subst hs
-        obtain ⟨new, h⟩ := relaunch_ext order { s with live := live }
-        refine .ext new ?_ (by simp) (fun h => absurd rfl (h _ _))
-        exact { queue := h.queue, launched := h.launched, published := h.published, lock := h.lock,
-                nextId := h.nextId, fresh := h.fresh, sorted := h.sorted, bound := h.bound }
-      · simp at hs
+    · simp only [Option.some.injEq] at hs
+      subst hs
+      exact .ext [] (Ext.refl _) (by simp) (by simp)
+  | config live order =>
+    simp only [step] at hs
+    split at hs
+    · simp only [Option.some.injEq] at hs
+      subst hs
+      obtain ⟨new, h⟩ := relaunch_ext order { s with live := live }
+      refine .ext new ?_ (by simp) (fun h => absurd rfl (h _ _))
+      exact { queue := h.queue, launched := h.launched, published := h.published, lock := h.lock,
+              nextId := h.nextId, fresh := h.fresh, sorted := h.sorted, bound := h.bound }
+    · simp at hs
   | acquire id =>
     simp only [step] at hs
     split at hs
